@@ -53,6 +53,36 @@ pub assume_specification<T, K, F>[ <[T]>::sort_by_cached_key ](s: &mut [T], f: F
             && (forall|i: int, j: int| 0 <= i < j < keys.len() ==> ord_le(#[trigger] keys[i], #[trigger] keys[j])),
 ;
 
+pub assume_specification<T, K, F>[ <[T]>::sort_by_key ](s: &mut [T], f: F) where
+    F: FnMut(&T) -> K,
+    K: core::cmp::Ord,
+
+    requires
+        forall|x: &T| #[trigger] call_requires(f, (x,)),
+    ensures
+        final(s)@.to_multiset() == old(s)@.to_multiset(),
+        final(s)@.len() == old(s)@.len(),
+        exists|keys: Seq<K>|
+            keys.len() == final(s)@.len()
+            && (forall|i: int| #![trigger final(s)@[i]] 0 <= i < keys.len() ==> call_ensures(f, (&final(s)@[i],), keys[i]))
+            && (forall|i: int, j: int| 0 <= i < j < keys.len() ==> ord_le(#[trigger] keys[i], #[trigger] keys[j])),
+;
+
+pub assume_specification<T, K, F>[ <[T]>::sort_unstable_by_key ](s: &mut [T], f: F) where
+    F: FnMut(&T) -> K,
+    K: core::cmp::Ord,
+
+    requires
+        forall|x: &T| #[trigger] call_requires(f, (x,)),
+    ensures
+        final(s)@.to_multiset() == old(s)@.to_multiset(),
+        final(s)@.len() == old(s)@.len(),
+        exists|keys: Seq<K>|
+            keys.len() == final(s)@.len()
+            && (forall|i: int| #![trigger final(s)@[i]] 0 <= i < keys.len() ==> call_ensures(f, (&final(s)@[i],), keys[i]))
+            && (forall|i: int, j: int| 0 <= i < j < keys.len() ==> ord_le(#[trigger] keys[i], #[trigger] keys[j])),
+;
+
 // Vec::drain(range): removes the range; the returned iterator yields exactly the removed items.
 pub assume_specification<'a, T, A, R>[ std::vec::Vec::<T, A>::drain ](v: &'a mut std::vec::Vec<T, A>, r: R) -> (d: std::vec::Drain<'a, T, A>) where
     A: core::alloc::Allocator,
